@@ -676,7 +676,8 @@ def splice_function(ft, directives, security=False):
     subst = {}
     for d in directives:
         if d.kind == 'subst':
-            k, v = d.arg.split('=', 1)
+            # `@@subst A :=> Text` (additive form, for keys that contain '=') or `@@subst A=Text`
+            k, v = d.arg.split(' :=> ', 1) if ' :=> ' in d.arg else d.arg.split('=', 1)
             subst[k.strip()] = v.strip()
     for key, val in subst.items():
         src = Src(text)
@@ -839,6 +840,7 @@ def splice_function(ft, directives, security=False):
             fired.append(('R3', src.line_of(start), 'for -> loop/next (it_%d)' % k))
 
     per_loop = {}
+    loop_labels = {}
     for d in directives:
         if d.kind in ('loop', 'before_loop', 'after_loop', 'loop_body_start', 'loop_body_end'):
             k, lp = loop_k(d)
@@ -857,6 +859,12 @@ def splice_function(ft, directives, security=False):
                     out.append((ln, o))
             return out
         auxl = 'aux.%s.loop%d' % (ft.name, k)
+        # `@@loop k <label>` (additive): <label> names the loop's termination obligation; it is put
+        # on the origin of the loop-head source line as 'loop_label' and used by verus.interpret
+        # for `decreases not satisfied` diagnostics only (their span is the loop keyword)
+        for d in dd.get('loop', []):
+            if len(d.arg.split()) > 1:
+                loop_labels[ft.first_line + src.line_of(src.t(kw).pos) - 1] = d.arg.split()[1]
         before = lines_of(dd.get('before_loop', []), auxl)
         clauses = lines_of(dd.get('loop', []), auxl, 'loop')
         bstart = lines_of(dd.get('loop_body_start', []), auxl)
@@ -1022,9 +1030,14 @@ def splice_function(ft, directives, security=False):
                         o2['label'] = ml.group(1)
                     if o2.get('o') == 'src':
                         o2.update(file=ft.rel, line=cur_line)
+                        if cur_line in loop_labels:
+                            o2['loop_label'] = loop_labels[cur_line]
                     lines.append((ln, o2))
             elif p != '':
-                lines.append((p, {'o': 'src', 'file': ft.rel, 'line': cur_line, 'fn': ft.name}))
+                o3 = {'o': 'src', 'file': ft.rel, 'line': cur_line, 'fn': ft.name}
+                if cur_line in loop_labels:
+                    o3['loop_label'] = loop_labels[cur_line]
+                lines.append((p, o3))
         cur_line += 1
     return lines
 
@@ -1420,12 +1433,13 @@ def build_unit(verif_root, repo, unit, security=None):
                     if 'as' in kv:
                         d = Directive('rename', kv['as'], 0)
                         ds.append(d)
+                        ft.name = (sel.rsplit('::', 1)[0] + '::' if '::' in sel else '') + kv['as']
                     lines = splice_function(ft, ds, sec)
                     for (tx, o) in lines:
                         if 'as' in kv and 'fn' in o:
                             pass
                         out_lines.append((tx, o))
-                    record.append({'item': 'fn ' + sel, 'file': rel, 'lines': [ft.first_line, ft.last_line],
+                    record.append({'item': 'fn ' + ft.name, 'source_item': sel, 'file': rel, 'lines': [ft.first_line, ft.last_line],
                                    'sha256': ft.sha, 'rewrites': [list(f) for f in ft.fired],
                                    'labels': sorted({o['label'] for _, o in lines if o.get('o') == 'clause' and 'label' in o})})
                     continue
